@@ -11,7 +11,9 @@ from nutree.typed_tree import ANY_KIND
 LEVEL = "proof"
 TRUSTED = []
 ASSUMPTIONS = ["node identities are unique within a tree (C01)"]
-KINDS = [None, "kind-a", "kind-b", "kind-c", "zzz", "kind-a-x", "kind"]   # absent kinds: unrelated, a superstring and a substring of present ones
+# kind "c" is a SUPERSTRING of kind "a" (a test by `in` instead of `==` confuses them); absent kinds: unrelated, a superstring and a substring
+LONG = {"a": "kind-a", "b": "kind-b", "c": "kind-a-x"}
+KINDS = [None, "kind-a", "kind-b", "kind-a-x", "zzz", "kind-b-y", "kind"]
 
 
 def long_kinds(spec):
@@ -20,9 +22,9 @@ def long_kinds(spec):
     out = []
     for lab, kids in spec:
         if isinstance(lab, dict):
-            lab = dict(lab, k=(None if lab.get("k") is None else "kind-" + lab["k"]))
+            lab = dict(lab, k=(None if lab.get("k") is None else LONG[lab["k"]]))
         elif isinstance(lab, tuple):
-            lab = (lab[0], None if lab[1] is None else "kind-" + lab[1])
+            lab = (lab[0], None if lab[1] is None else LONG[lab[1]])
         out.append((lab, long_kinds(kids)))
     return out
 
@@ -85,10 +87,30 @@ def mutate(tree, rng, pool, step):
     if not nodes:
         return "none"
     n = rng.choice(nodes)
-    kind = ["remove", "sort", "move", "add", "remove_children", "set_data"][step % 6]
+    kind = ["remove", "sort", "move", "add", "remove_children", "set_data", "remove_keep", "copy_node", "copy_tree", "copy_new_kind"][step % 10]
     try:
         if kind == "remove":
             n.remove()
+        elif kind == "remove_keep":
+            # the children move up one level: kinds that their new parent never held before
+            cands = [x for x in nodes if x.children]
+            (rng.choice(cands) if cands else n).remove(keep_children=True)
+        elif kind == "copy_node":
+            # a kind that enters a child list only through a COPY of a node (clone), deep or shallow
+            tgt = rng.choice(nodes)
+            deep = rng.choice([None, True])
+            if deep and (tgt is n or tgt.is_descendant_of(n)):
+                deep = None       # a branch copied deeply below itself recurses without end (DESIGN.md section 5.4)
+            tgt.add(n, kind=rng.choice([None, "kind-b", "kind-a-x"]) or n.kind, deep=deep)
+        elif kind == "copy_tree":
+            from nutree.typed_tree import TypedTree
+
+            src = TypedTree("src")
+            src.add(pool.objs[9], kind="kind-b-y").add(pool.objs[10], kind="kind-a-x")
+            src.add(pool.objs[11], kind="kind")
+            rng.choice(nodes).add(src, before=rng.choice([None, True, 0]))
+        elif kind == "copy_new_kind":
+            rng.choice(nodes).add(n, kind="zzz", deep=False)
         elif kind == "sort":
             (n.parent or tree.system_root).sort_children(key=lambda x: str(x.data), reverse=True)
         elif kind == "move":
@@ -96,7 +118,7 @@ def mutate(tree, rng, pool, step):
             if tgt is not n and not tgt.is_descendant_of(n):
                 n.move_to(tgt, before=rng.choice([None, True, 0]))
         elif kind == "add":
-            n.add(pool.objs[rng.choice([2, 3, 4, 7, 8])], kind=rng.choice(["kind-a", "kind-b", "kind-c"]), before=rng.choice([None, True, 0]))
+            n.add(pool.objs[rng.choice([2, 3, 4, 7, 8])], kind=rng.choice(["kind-a", "kind-b", "kind-a-x"]), before=rng.choice([None, True, 0]))
         elif kind == "remove_children":
             n.remove_children()
         else:
